@@ -273,7 +273,7 @@ pub fn reference(spec: &BlockSpec, inputs: &[InputData], script_tags: &[(usize, 
             v.extend(bits_of(x));
             exact(vec![s(v)])
         }
-        (DelayRetuneU8 { d0, early, mid }, [D::U8(x)]) => {
+        (DelayRetuneU8 { d0, early, mid, .. }, [D::U8(x)]) => {
             // the delay line: `early` settings before anything ran just replace the delay;
             // a later raise inserts zeros, a later cut drops input
             let d_eff = early.last().copied().unwrap_or(*d0) as usize;
